@@ -49,11 +49,13 @@ NNVG_TIMEOUT = 120
 # ---------------------------------------------------------------------------------------------------------------
 # DSDL namespaces
 # ---------------------------------------------------------------------------------------------------------------
+# `@print` / `@assert` make the DSDL front end produce diagnostics (pydsdl hands them to a print handler; whatever the tool
+# does with them, none of it may end up in the list a listing mode prints)
 BODY = {
-    "struct": "uint8 a\n@sealed\n",
-    "union": "@union\nuint8 a\nuint16 b\n@sealed\n",
-    "delimited": "uint8 a\n@extent 64\n",
-    "service": "uint8 q\n@sealed\n---\nuint8 r\n@sealed\n",
+    "struct": "uint8 a\n@print 1 + 1\n@print \"semi;colon and words\"\n@assert _offset_ % 8 == {0}\n@sealed\n",
+    "union": "@union\nuint8 a\nuint16 b\n@print _offset_\n@sealed\n",
+    "delimited": "uint8 a\n@assert _offset_.min == 8\n@extent 64\n",
+    "service": "uint8 q\n@print \"request\"\n@sealed\n---\nuint8 r\n@print \"response\"\n@sealed\n",
 }
 DSDL_SUFFIXES = (".dsdl", ".uavcan")   # the front end still accepts the legacy extension
 KIND_CLASS = {"struct": "StructureType", "union": "UnionType", "delimited": "DelimitedType", "service": "ServiceType"}
@@ -71,11 +73,11 @@ def ns_specs(rng, thorough):
             T("app.Uni", "union"), T("app.Svc", "service"), T("app.Delim", "delimited"),
             T("app.sub.Gamma"), T("app.deep.er.Leaf"), T("app.Legacy", "union", ext="uavcan"), T("app.sub.Old", ext="uavcan")]},
         "lookup": {"root": "use", "lookups": ["lib"], "types": [
-            T("use.Use", body="lib.Dep.1.0 d\nuint8[<=lib.Limits.1.0.N] arr\n@sealed\n", deps=["lib.Dep.1.0", "lib.Limits.1.0"]),
+            T("use.Use", body="lib.Dep.1.0 d\nuint8[<=lib.Limits.1.0.N] arr\n@print lib.Limits.1.0.N\n@sealed\n", deps=["lib.Dep.1.0", "lib.Limits.1.0"]),
             T("use.Local"),
             T("use.LegacyUse", body="lib.Old.1.0 o\nuint8 z\n@sealed\n", deps=["lib.Old.1.0"], ext="uavcan"),
             T("lib.Old", body="uint32 w\n@sealed\n", ext="uavcan"),
-            T("lib.Dep", body="uint16 v\nlib.Inner.1.0[2] i\n@sealed\n", deps=["lib.Inner.1.0"]),
+            T("lib.Dep", body="uint16 v\nlib.Inner.1.0[2] i\n@print \"from the lookup directory\"\n@sealed\n", deps=["lib.Inner.1.0"]),
             T("lib.Inner", body="uint8 w\n@sealed\n"),
             T("lib.Limits", body="uint8 N = 5\n@sealed\n"),
             T("lib.Unused")]},
@@ -281,12 +283,15 @@ def make_tpl_dir(kind, lang, pkg_lang_dir, dest):
         raise ValueError(kind)
 
 
+SHADOW_MARK = "shadow support template c08"
+
+
 def make_stpl_dir(lang, pkg_lang_dir, dest):
     dest = pathlib.Path(dest)
     dest.mkdir(parents=True)
     names = [p.name for p in sorted(pathlib.Path(pkg_lang_dir, lang, "support").glob("*.j2"))]
     for n in names:
-        (dest / n).write_text("shadow support template\n")
+        (dest / n).write_text(SHADOW_MARK + " " + n + "\n")
     (dest / "unused.j2").write_text("never generated\n")
 
 
@@ -319,7 +324,7 @@ def list_dir_files(d, with_link_flag=False):
 FACTORS_QUICK = collections.OrderedDict([
     ("lang", LANGS), ("gs", GS), ("omit", [0, 1]), ("gnt", [0, 1]), ("tpl", ["none", "copy", "tree"]),
     ("stpl", ["none", "shadow"]), ("ext", [None, ".xx", "yy"]), ("stem", [None, "nsx"]),
-    ("ns", ["plain", "lookup"]), ("out", ["rel", "abs", "dotslash", "updown", "symup", "relsymup"]), ("inp", ["plain", "messy", "symlink"]),
+    ("ns", ["plain", "lookup"]), ("out", ["rel", "abs", "dotslash", "updown", "symup", "relsymup"]), ("inp", ["plain", "messy", "symlink", "rel"]),
 ])
 
 
@@ -379,8 +384,9 @@ def full_grid(factors):
 OUT_STYLES = {"rel": "out", "abs": "{sb}/abs.out/o", "dotted": "gen.d/./out.v1", "dotslash": "./out//deep/", "updown": "a/../b",
               "dot": ".", "symlink": "{sb}/lnk/out", "symup": "{sb}/lnk/../gen", "relsymup": "lnk/../gen//"}
 # Spellings of the input directories (root namespace, lookup, --templates, --support-templates):
-# plain absolute | relative with ./, doubled slash, trailing slash, x/../ | through a symbolic link
-IN_STYLES = ["plain", "messy", "symlink"]
+# plain absolute | relative with ../, ./, doubled slash, trailing slash, x/../ | through a symbolic link | relative to the
+# working directory starting with a plain name (sorts after any absolute path, `../…` sorts before)
+IN_STYLES = ["plain", "messy", "symlink", "rel"]
 
 
 class Sandbox:
@@ -408,6 +414,7 @@ class Sandbox:
         os.symlink(str(self.base / "realdir" / "deep"), str(self.base / "lnk"))
         os.symlink("../realdir/deep", str(self.cwd / "lnk"))
         os.symlink("in", str(self.base / "inlnk"))
+        os.symlink("../in", str(self.cwd / "inrel"))
         self.entries = entries_for(self.spec, self.ind)
 
     def spell(self, path):
@@ -419,6 +426,8 @@ class Sandbox:
             return "../in//./" + head + "/../" + head + ("/" + tail if tail else "") + "/"
         if style == "symlink":
             return str(self.base / "inlnk" / ".." / "inlnk" / rel)
+        if style == "rel":
+            return "inrel/" + rel      # relative to the working directory, first component a plain name (cwd/inrel -> ../in)
         return str(path)
 
     def cli_args(self, flags):
@@ -444,6 +453,8 @@ class Sandbox:
         if flags[1] == "1":
             a.append("--list-inputs")
         if flags[2] == "1":
+            a.append("--list-configuration")
+        if flags[3] == "1":
             a.append("--dry-run")
         a.append(self.spell(self.ind / self.spec["root"]))
         return a
@@ -511,21 +522,41 @@ def split_list(stdout):
     return [x for x in stdout.split(";") if x]
 
 
-MODE_FLAGS = {"lo": ["100", "101", "110", "111"], "li": ["010", "011"], "dry": ["001"], "gen": ["000"]}
+def list_format_ok(stdout):
+    """What a listing mode may write to stdout: every item followed by one `;`, nothing else (no line of text in front of,
+    between or behind the items)."""
+    items = split_list(stdout)
+    return stdout == "".join(x + ";" for x in items) and not any("\n" in x or "\r" in x for x in items)
+
+
+# bits: list_outputs list_inputs list_configuration dry_run — `ArgparseRunner.run` tests them in this order
+MODE_FLAGS = {"lo": ["1000", "1001", "1100", "1110", "1010", "1111"], "li": ["0100", "0101", "0110", "0111"], "lc": ["0010", "0011"],
+              "dry": ["0001"], "gen": ["0000"]}
 
 
 def execute(sb, flagsets, pythonpath):
     """Run one configuration in all modes with snapshots in between.  Returns raw observations."""
     obs = {}
     snap = fss.snapshot([sb.base])
-    for step, mode in (("lo", "lo"), ("li", "li"), ("dry", "dry"), ("gen", "gen"), ("lo2", "lo"), ("li2", "li"), ("dry2", "dry")):
+    for step, mode in (("lo", "lo"), ("li", "li"), ("lc", "lc"), ("dry", "dry"), ("gen", "gen"), ("lo2", "lo"), ("li2", "li"), ("dry2", "dry"),
+                       ("gen2", "gen")):
+        if step == "gen2":
+            # a history: the outputs of the first run are made writable (as `--file-mode 0o644` or a user would), then the
+            # same real run again over the existing tree
+            for p in obs["gen"]["created_files"]:
+                try:
+                    os.chmod(p, os.stat(p).st_mode | 0o200)
+                except OSError:
+                    pass
+            snap = fss.snapshot([sb.base])
         flags = flagsets[mode]
         rc, so, se = nnvg(sb.cli_args(flags), sb.cwd, pythonpath)
         after = fss.snapshot([sb.base])
         d = fss.diff(snap, after)
         obs[step] = {"flags": flags, "rc": rc, "status": classify(rc, se), "stdout": so, "stderr_tail": se.strip()[-600:],
                      "dirs_before": set(fss.dirs(snap)), "diff": d, "created_files": [p for p in d.created if after[p].kind != "d"],
-                     "created_dirs": [p for p in d.created if after[p].kind == "d"]}
+                     "created_dirs": [p for p in d.created if after[p].kind == "d"],
+                     "modified_files": [p for p in d.modified if after[p].kind != "d"], "deleted": list(d.deleted)}
         snap = after
     return obs
 
@@ -559,7 +590,7 @@ def evaluate(ctx, sb, obs, model, stream):
         return sorted(os.path.relpath(p, base) for p in ps)
 
     # ---- correspondence ------------------------------------------------------------------------------------
-    for step, mode in (("lo", "lo"), ("li", "li"), ("dry", "dry"), ("gen", "gen")):
+    for step, mode in (("lo", "lo"), ("li", "li"), ("lc", "lc"), ("dry", "dry"), ("gen", "gen")):
         o, m = obs[step], model.get(mode)
         nontrivial = o["status"] != "ok" or bool(o["stdout"]) or bool(o["created_files"])
         ctx.case((stream, json.dumps(ck, sort_keys=True), step), nontrivial)
@@ -589,7 +620,7 @@ def evaluate(ctx, sb, obs, model, stream):
             want = sorted(set(m["inputs"]))
             if got != want:
                 ctx.disagree(stream + ":list-inputs", inp, {"only_model": sorted(set(want) - set(got)), "only_impl": sorted(set(got) - set(want))}, "see model field")
-        if mode in ("lo", "li", "dry") and m["ops"]:
+        if mode in ("lo", "li", "lc", "dry") and m["ops"]:
             ctx.disagree(stream + ":ops", inp, m["ops"], "a listing/dry-run mode must not have operations in the model either")
         if mode == "dry" and o["stdout"]:
             ctx.disagree(stream + ":dry-stdout", inp, "", o["stdout"][:200])
@@ -618,7 +649,8 @@ def evaluate(ctx, sb, obs, model, stream):
         listed = sorted(set(sb.norm(x) for x in split_list(lo["stdout"])))
         made = sorted(gen["created_files"])
         if lo["rc"] != 0 or listed != made:
-            ctx.fail({"kind": "list-outputs-differs-from-generated", "generate_support": cfg["gs"], "omit": cfg["omit"]},
+            ctx.fail({"kind": "list-outputs-differs-from-generated", "generate_support": cfg["gs"], "omit": cfg["omit"]}
+                     | ({"with_list_configuration": 1} if lo["flags"][2] == "1" else {}),
                      "--list-outputs does not print exactly the files the real run creates",
                      {"cfg": ck, "list_outputs_rc": lo["rc"], "compared": "resolved identity (os.path.realpath) of the printed paths vs files found on disk",
                       "printed": [x.replace(base, "$SB") for x in split_list(lo["stdout"])][:6], "listed_not_created": rel(set(listed) - set(made)),
@@ -628,12 +660,59 @@ def evaluate(ctx, sb, obs, model, stream):
         if lo2["rc"] == 0 and sorted(set(sb.norm(x) for x in split_list(lo2["stdout"]))) != listed and lo["rc"] == 0:
             ctx.fail({"kind": "list-outputs-depends-on-existing-output"}, "--list-outputs prints another list once the output exists",
                      {"cfg": ck, "before": rel(listed), "after": rel(sb.norm(x) for x in split_list(lo2["stdout"]))})
-    for step in ("lo", "li", "dry", "lo2", "li2", "dry2"):
+    # a second real run over the existing (now writable) outputs: the files it creates or rewrites are the listed ones
+    gen2 = obs["gen2"]
+    if gen["rc"] == 0 and gen2["rc"] == 0 and lo["rc"] == 0:
+        listed = sorted(set(sb.norm(x) for x in split_list(lo["stdout"])))
+        extra = sorted(set(gen2["created_files"]) - set(listed))
+        untouched = sorted(set(listed) - set(gen2["created_files"]) - set(gen2["modified_files"]))
+        if extra or gen2["deleted"] or gen2["created_dirs"]:
+            ctx.fail({"kind": "rerun-creates-unlisted-files"},
+                     "a real run over its own (writable) earlier output creates files --list-outputs does not name",
+                     {"cfg": ck, "history": ["generate", "chmod u+w <outputs>", "generate"], "created_not_listed": rel(extra),
+                      "deleted": rel(gen2["deleted"]), "created_dirs": rel(gen2["created_dirs"]), "cli": sb.cli_args(gen2["flags"])})
+        if untouched:
+            ctx.fail({"kind": "rerun-skips-listed-files"} | ({"with_list_configuration": 1} if lo["flags"][2] == "1" else {}), "a real run over its own earlier output does not rewrite a listed file",
+                     {"cfg": ck, "not_rewritten": rel(untouched)})
+    elif gen["rc"] == 0 and gen2["rc"] != 0:
+        ctx.fail({"kind": "rerun-fails"}, "the same real run fails over its own earlier output",
+                 {"cfg": ck, "status": gen2["status"], "stderr": gen2["stderr_tail"][-300:]})
+    # nothing but the list on stdout
+    for step in ("lo", "li", "lo2", "li2"):
+        o = obs[step]
+        if o["rc"] == 0 and not list_format_ok(o["stdout"]):
+            ctx.fail({"kind": "list-stdout-not-a-list", "mode": step.rstrip("2")},
+                     "a listing mode writes something else than `<item>;<item>;…` to stdout",
+                     {"cfg": ck, "step": step, "cli": sb.cli_args(o["flags"]), "stdout_head": o["stdout"][:300].replace(base, "$SB")})
+    for step in ("li", "li2"):
+        o = obs[step]
+        if o["rc"] == 0:
+            ghosts = [x for x in split_list(o["stdout"]) if not os.path.exists(os.path.join(str(sb.cwd), x))]
+            if ghosts:
+                ctx.fail({"kind": "list-inputs-names-nonexistent"}, "--list-inputs prints an item that is not an existing file or directory",
+                         {"cfg": ck, "step": step, "items": [g[:200].replace(base, "$SB") for g in ghosts[:4]], "cli": sb.cli_args(o["flags"])})
+    for step in ("lo", "li", "lc", "dry", "lo2", "li2", "dry2"):
         o = obs[step]
         if not o["diff"].empty:
             ctx.fail({"kind": "side-effect", "mode": step.rstrip("2")},
                      f"{step}: a listing / dry-run invocation changed the file system",
                      {"cfg": ck, "step": step, "cli": sb.cli_args(o["flags"]), "diff": o["diff"].as_dict(relative_to=base)})
+    # a template in --support-templates that the real run rendered (its text is in a generated file) must be listed
+    if sb.stpl is not None and gen["rc"] == 0 and obs["li"]["rc"] == 0:
+        printed = set(os.path.realpath(os.path.join(str(sb.cwd), x)) for x in split_list(obs["li"]["stdout"]))
+        rendered = set()
+        for f in gen["created_files"]:
+            try:
+                text = pathlib.Path(f).read_text(errors="replace")
+            except OSError:
+                continue
+            for mm in re.finditer(re.escape(SHADOW_MARK) + r" (\S+)", text):
+                rendered.add(os.path.realpath(str(sb.stpl / mm.group(1))))
+        missing = sorted(rendered - printed)
+        if missing:
+            ctx.fail({"kind": "unlisted-input", "class": "support-templates-dir"},
+                     "a template of --support-templates was rendered into the output but --list-inputs does not print it",
+                     {"cfg": ck, "rendered_not_listed": rel(missing), "cli": sb.cli_args(obs["li"]["flags"])})
     gd = obs["gen"]["diff"]
     touched_inputs = [p for p in gd.modified + gd.deleted + gd.created if p.startswith(str(sb.ind) + os.sep) or p == str(sb.ind)]
     if touched_inputs:
@@ -651,7 +730,8 @@ def evaluate(ctx, sb, obs, model, stream):
                     (linked if via else must).append(p)
         missing = sorted(set(must) - printed)
         if missing:
-            ctx.fail({"kind": "unlisted-input", "class": "structural"}, "--list-inputs omits a template or a root DSDL file",
+            ctx.fail({"kind": "unlisted-input", "class": "structural"} | ({"with_list_configuration": 1} if li["flags"][2] == "1" else {}),
+                     "--list-inputs omits a template or a root DSDL file",
                      {"cfg": ck, "missing": rel(missing)})
         missing = sorted(set(linked) - printed)
         if missing:
@@ -671,7 +751,7 @@ def run_stream(ctx, stream, cfgs, specs, drv, pythonpath, pkg_lang_dir, budget_s
         jobs.append((sb, flagsets))
     lines, index = [], []
     for j, (sb, fl) in enumerate(jobs):
-        for mode in ("lo", "li", "dry", "gen"):
+        for mode in ("lo", "li", "lc", "dry", "gen"):
             lines.append(sb.model_line(fl[mode]))
             index.append((j, mode))
         lines.append(sb.model_line(fl["lo"], "old"))
@@ -820,15 +900,15 @@ class MutationSearch:
         for mi, cfg in enumerate(mconfigs):
             sb = self.setup(slot0, cfg, f"base{mi}")
             pp = slot0 / "pkg"
-            rc, so, se = nnvg(sb.cli_args("010"), sb.cwd, pp, hashseed=0)
+            rc, so, se = nnvg(sb.cli_args("0100"), sb.cwd, pp, hashseed=0)
             if rc != 0:
                 ctx.disagree("mutation:baseline", cfg_key(cfg), "ok", classify(rc, se) + " " + se[-300:])
                 continue
             listed = set(self.relname(slot0, sb, x) for x in split_list(so))
-            rc1, _, se1 = nnvg(sb.cli_args("000"), sb.cwd, pp, hashseed=0)
+            rc1, _, se1 = nnvg(sb.cli_args("0000"), sb.cwd, pp, hashseed=0)
             out1 = self.outputs_of(sb, slot0)
             shutil.rmtree(sb.norm(sb.outarg), ignore_errors=True)
-            rc2, _, _ = nnvg(sb.cli_args("000"), sb.cwd, pp, hashseed=0)
+            rc2, _, _ = nnvg(sb.cli_args("0000"), sb.cwd, pp, hashseed=0)
             out2 = self.outputs_of(sb, slot0)
             if rc1 != 0 or rc2 != 0:
                 ctx.disagree("mutation:baseline", cfg_key(cfg), "ok", classify(rc1, se1) + " " + se1[-300:])
@@ -844,7 +924,7 @@ class MutationSearch:
                     cands.append(self.relname(slot0, sb, p))
             model_reads = None
             if self.drv is not None:
-                r = parse_answer(self.drv.ask([sb.model_line("010")])[0])
+                r = parse_answer(self.drv.ask([sb.model_line("0100")])[0])
                 if r is not None:
                     model_reads = set(self.relname(slot0, sb, x) for x in r["reads"])
             info[mi] = {"cfg": cfg, "listed": listed, "baseline": out1, "unstable": unstable, "reads": model_reads, "influential": {}}
@@ -868,7 +948,7 @@ class MutationSearch:
                 cfg = info[mi]["cfg"]
                 if (slot, mi) not in baselines:
                     sb = self.setup(slot, cfg, "w")
-                    rc, _, se = nnvg(sb.cli_args("000"), sb.cwd, slot / "pkg", hashseed=0)
+                    rc, _, se = nnvg(sb.cli_args("0000"), sb.cwd, slot / "pkg", hashseed=0)
                     baselines[(slot, mi)] = self.outputs_of(sb, slot) if rc == 0 else None
                     shutil.rmtree(sb.base, ignore_errors=True)
                 sb = self.setup(slot, cfg, "w")
@@ -877,7 +957,7 @@ class MutationSearch:
                 name, new = mutations(target)[k]
                 try:
                     pathlib.Path(target).write_text(new)
-                    rc, _, se = nnvg(sb.cli_args("000"), sb.cwd, slot / "pkg", hashseed=0)
+                    rc, _, se = nnvg(sb.cli_args("0000"), sb.cwd, slot / "pkg", hashseed=0)
                     out = self.outputs_of(sb, slot) if rc == 0 else None
                 finally:
                     pathlib.Path(target).write_bytes(original)
@@ -1056,7 +1136,7 @@ def evaluate_api(ctx, records, drv, pkg_lang_dir):
             sb = Sandbox.__new__(Sandbox)
             sb.cfg = {"lang": lang, "gs": gsv, "omit": int(omit), "gnt": 0, "ext": None, "stem": None}
             sb.pkg_lang_dir, sb.outarg, sb.tpl, sb.stpl, sb.entries = str(pkg_lang_dir), work + "/out", None, None, ents
-            m = parse_answer(drv.ask([sb.model_line("100")])[0])
+            m = parse_answer(drv.ask([sb.model_line("1000")])[0])
             ctx.traces += 1
             if m is None or sorted(m["outputs"]) != ref["D"][part]:
                 ctx.disagree("api:model", {"lang": lang, "omit": omit, "part": part}, None if m is None else sorted(m["outputs"]), ref["D"][part])
@@ -1155,13 +1235,15 @@ def run(ctx: common.Ctx):
     def mc(lang, ns, tpl="none", stpl="none", gs="as-needed", gnt=0):
         return {"lang": lang, "gs": gs, "omit": 0, "gnt": gnt, "tpl": tpl, "stpl": stpl, "ext": None, "stem": None, "ns": ns, "out": "rel"}
     if ctx.quick:
-        mcfgs = [mc("c", "lookup"), mc("html", "plain"), mc("py", "lookup", tpl="copy", stpl="shadow"), mc("c", "plain", tpl="tree", gnt=1)]
+        mcfgs = [mc("c", "lookup"), mc("html", "plain"), mc("py", "lookup", tpl="copy", stpl="shadow"), mc("c", "plain", tpl="tree", gnt=1),
+                 dict(mc("c", "plain", stpl="shadow"), inp="rel")]
     else:
         mcfgs = []
         for l in LANGS:
             mcfgs += [mc(l, "plain"), mc(l, "lookup"), mc(l, "lookup", "copy", "shadow")]
             mcfgs.append(mc(l, "random", "copy", "shadow") if l in ("c", "py") else mc(l, "random"))
             mcfgs.append(mc(l, "plain", tpl="tree", gnt=1))
+            mcfgs.append(dict(mc(l, "plain", tpl="copy" if l in ("cpp", "py") else "none", stpl="shadow"), inp="rel"))
     ctx.extra["domain"]["mutation_configurations"] = len(mcfgs)
     MutationSearch(ctx, specs, drv).run(mcfgs)
     api_thread.join(timeout=600)
@@ -1202,8 +1284,12 @@ def replay(ctx, path):
     base = str(sb.base)
     listed = sorted(os.path.relpath(sb.norm(x), base) for x in split_list(obs["lo"]["stdout"]))
     made = sorted(os.path.relpath(p, base) for p in obs["gen"]["created_files"])
-    side = {s: obs[s]["diff"].as_dict(relative_to=base) for s in ("lo", "li", "dry", "lo2", "li2", "dry2") if not obs[s]["diff"].empty}
-    print(json.dumps({"cli": sb.cli_args("100"), "list_outputs": listed, "created_by_real_run": made, "gen_status": obs["gen"]["status"],
-                      "side_effects": side}, indent=1))
+    side = {s: obs[s]["diff"].as_dict(relative_to=base) for s in ("lo", "li", "lc", "dry", "lo2", "li2", "dry2") if not obs[s]["diff"].empty}
+    before = len(ctx.failures)
+    evaluate(ctx, sb, obs, {}, "replay")
+    found = [f for f in ctx.failures[before:]]
+    print(json.dumps({"cli": sb.cli_args("1000"), "list_outputs": listed, "created_by_real_run": made, "gen_status": obs["gen"]["status"],
+                      "side_effects": side, "property_failures": [{"key": f["key"], "what": f["what"]} for f in found]}, indent=1, default=str))
     ctx.cleanup()
-    return 1 if (obs["gen"]["rc"] == 0 and listed != made) or side else 0
+    want = r.get("key", {}).get("kind")
+    return 1 if any(f["key"].get("kind") == want or want is None for f in found) else 0
